@@ -507,24 +507,36 @@ qlisttbl_data_t *qlisttbl_getmulti(qlisttbl_t *tbl, const char *name, bool newme
     qlisttbl_data_t *objs = NULL;  // objects container
     size_t allocobjs = 0;  // allocated number of objs
     size_t numfound = 0;  // number of keys found
+    bool failed = false;  // memory allocation failure
 
     qlisttbl_obj_t obj;
     memset((void *)&obj, 0, sizeof(obj)); // must be cleared before call
     qlisttbl_lock(tbl);
-    while (tbl->getnext(tbl, &obj, name, newmem) == true) {
-        numfound++;
+    while (true) {
+        if (tbl->getnext(tbl, &obj, name, newmem) == false) {
+            // end of the matches, or no memory for the copies
+            if (errno == ENOMEM) failed = true;
+            break;
+        }
 
         // allocate object array.
-        if (numfound >= allocobjs) {
-            if (allocobjs == 0) allocobjs = 10;  // start from 10
-            else allocobjs *= 2;  // double size
-            objs = (qlisttbl_data_t *)realloc(objs, sizeof(qlisttbl_data_t) * allocobjs);
-            if (objs == NULL) {
+        if ((numfound + 1) >= allocobjs) {
+            size_t newallocobjs = (allocobjs == 0) ? 10 : (allocobjs * 2);
+            qlisttbl_data_t *newobjs = (qlisttbl_data_t *)realloc(objs, sizeof(qlisttbl_data_t) * newallocobjs);
+            if (newobjs == NULL) {
                 DEBUG("qlisttbl->getmulti(): Memory reallocation failure.");
-                errno = ENOMEM;
+                // the array is still valid; release the copy made for this entry
+                if (newmem == true) {
+                    if (obj.name != NULL) free(obj.name);
+                    if (obj.data != NULL) free(obj.data);
+                }
+                failed = true;
                 break;
             }
+            objs = newobjs;
+            allocobjs = newallocobjs;
         }
+        numfound++;
 
         // copy reference
         qlisttbl_data_t *newobj = &objs[numfound - 1];
@@ -544,12 +556,21 @@ qlisttbl_data_t *qlisttbl_getmulti(qlisttbl_t *tbl, const char *name, bool newme
     }
     qlisttbl_unlock(tbl);
 
+    if (failed == true) {
+        // release everything collected so far, report the failure
+        qlisttbl_freemulti(objs);
+        objs = NULL;
+        numfound = 0;
+    }
+
     // return found counter
     if (numobjs != NULL) {
         *numobjs = numfound;
     }
 
-    if (numfound == 0) {
+    if (failed == true) {
+        errno = ENOMEM;
+    } else if (numfound == 0) {
         errno = ENOENT;
     }
 
